@@ -132,6 +132,11 @@ int main(int argc, char **argv) {
                         for (long len : {1L, 2L}) { if (j + len > p) continue; Task t; t.cfg = c; t.kind = 4; t.n = 32768; t.p = p; t.seam = j; t.rep = len; tasks.push_back(t); }
                     }
             }
+            if ((fam & 1) && wide) {
+                // two runs meeting just before a chunk end: the first stops 1..3 slots before it, the second starts on the last slot
+                for (long p : (thorough ? std::vector<long>{2, 3, 5, 20} : std::vector<long>{2, 20}))
+                    for (long j : (thorough ? std::vector<long>{0, 1, p - 2} : std::vector<long>{0, p - 2})) { if (j < 0 || j > p - 2) continue; Task t; t.cfg = c; t.kind = 10; t.n = 32768; t.p = p; t.seam = j; tasks.push_back(t); }
+            }
             if ((fam & 4) && wide) {
                 // segment-count sweep: one density block of c clusters for every c in 1..400 (every residue of the segment count modulo
                 // 64 and 4096-related block sizes of the succinct structures)
@@ -175,7 +180,7 @@ int main(int argc, char **argv) {
             }
         }
         fam_bounds = thorough ? "; capacity family (clusters of Epsilon^2+1 keys, every cluster count in a window of 75-150 values: the segment array grows during the construction of an upper level); span family (clusters spread over the whole domain of the key type, 18 cluster counts x 9 end offsets, every configuration); seam family n=32768+{0,1,7}, chunks {2,3,4,5,7,16,19,20}, all 4096 window words at every seam (and at the first/last seam alone); blocks family: 1 block x rep {1,50,400}, 2 blocks x rep {1,20}; density family: all 1024 five-digit words x 300 clusters"
-                              : "; capacity family (clusters of Epsilon^2+1 keys, every cluster count in a window of 75-150 values: the segment array grows during the construction of an upper level); span family (clusters spread over the whole domain of the key type, 11 cluster counts x 9 end offsets, every configuration); seam family n=32768, chunks {2,20}, all 4096 window words at every seam; blocks family: 1 block x rep {1,50}, 2 blocks x rep 1; density family (also placed at 3/4 of the key domain and, for signed keys, at 3/4 of the negative half, for three words; single blocks of 4090..4101 and 8186..8197 clusters; a stretch member: 74,000 clusters, one run of 3,680,000 consecutive keys, 6,000 clusters): all 256 four-digit words of gap multipliers x 300 clusters (several segments per upper level), skewed variants with a 3x/30x jump, and 44000-cluster variants (plain, and 'chunk-tail' with a key-space jump 1/3 clusters before every chunk boundary over a zig-zag background) whose upper levels are built by the chunked builder; long-run family: a duplicate run from around a chunk start to around a chunk end, every start/end offset";
+                              : "; capacity family (clusters of Epsilon^2+1 keys, every cluster count in a window of 75-150 values: the segment array grows during the construction of an upper level); span family (clusters spread over the whole domain of the key type, 11 cluster counts x 9 end offsets, every configuration); seam family n=32768, chunks {2,20}, all 4096 window words at every seam; blocks family: 1 block x rep {1,50}, 2 blocks x rep 1; density family (also placed at 3/4 of the key domain and, for signed keys, at 3/4 of the negative half, for three words; single blocks of 4090..4101 and 8186..8197 clusters; a stretch member: 74,000 clusters, one run of 3,680,000 consecutive keys, 6,000 clusters): all 256 four-digit words of gap multipliers x 300 clusters (several segments per upper level), skewed variants with a 3x/30x jump, and 44000-cluster variants (plain, and 'chunk-tail' with a key-space jump 1/3 clusters before every chunk boundary over a zig-zag background) whose upper levels are built by the chunked builder; long-run family: a duplicate run from around a chunk start to around a chunk end, every start/end offset; two-run family: a run ending 1..3 slots before a chunk end followed by a run that starts on the last slot and continues into the next chunk";
     }
 
     if (asan_quick) std::stable_sort(tasks.begin(), tasks.end(), [](const Task &a, const Task &b) { return (a.kind != 0) > (b.kind != 0); });   // few large-input cases first
@@ -200,6 +205,14 @@ int main(int argc, char **argv) {
         } else if (t.kind == 6) {
             for (long c = t.word_lo; c < t.word_hi && !run.deadline_passed(); ++c) {
                 ks::FamilySpec s; s.kind = "density"; s.chunks = 1; s.rep = c; s.width = 1; s.word = c % 4;
+                e.family(run, cn, prop, s);
+            }
+        } else if (t.kind == 10) {
+            long E = long(e.eps);
+            for (long a : {1L, 2L, 3L}) for (long L : {1L, E + 1, 2 * E + 2, 4 * E + 4, 200L}) for (long so : {-1L, 0L, 1L, 50L}) {
+                if (run.deadline_passed()) break;
+                ks::FamilySpec s; s.kind = "tworuns"; s.n = t.n; s.chunks = t.p; s.seam = t.seam; s.width = a; s.rep = L; s.word = so;
+                if (a == 2 && L == 200 && so == 0) run.sample(std::string("cfg=") + e.name + " family=" + s.str());
                 e.family(run, cn, prop, s);
             }
         } else if (t.kind == 9) {
